@@ -32,6 +32,11 @@ func (jenny RawTypes) Generate(context languages.Context) (codejen.Files, error)
 	files := make(codejen.Files, 0, len(context.Schemas))
 
 	for _, schema := range context.Schemas {
+		// the module is named after the package: `from ..models import global` is no Python
+		if isReservedPythonKeyword(schema.Package) {
+			return nil, fmt.Errorf("package '%s': a reserved word of Python can not name a module", schema.Package)
+		}
+
 		output, err := jenny.generateSchema(context, schema)
 		if err != nil {
 			return nil, err
